@@ -634,14 +634,14 @@ func init() {
 	core.Register(&core.Check{
 		ID:    "C16",
 		Level: "exploration",
-		Rule: "repetition monitor: each case (source + targets) is run R times in one process (R = 30 quick / 200 thorough; Go randomises map iteration per range statement, so repetition exercises iteration order) and once in fresh processes with GOMAXPROCS 1, 2 and 16 (different hash seeds); the digest of everything observable (Dump hash, diagnostics, output, blocks, binding, Unmarshal target and error text for a struct and a slice target, dump before/after Execute) must be identical. " +
+		Rule: "repetition monitor: each case (source + targets) is run R times in one process (R = 30 quick / 100 thorough; Go randomises map iteration per range statement, so repetition exercises iteration order) and once in fresh processes with GOMAXPROCS 1, 2 and 16 (different hash seeds); the digest of everything observable (Dump hash, diagnostics, output, blocks, binding, Unmarshal target and error text for a struct and a slice target, dump before/after Execute) must be identical. " +
 			"History variants: A, B, A (the second A equals the first); results of a run are mutated before the next run of the same Prog. Cases are selected for order sensitivity: several keys folding to one struct field, several named children of one type into one field, several faulty fields at once, many constants and identifiers, several diagnostics, plus generated programs. " +
 			"distinct = hash of source; non-trivial = at least 2 runs were compared",
 		Assumptions:   []string{"the digest renders maps with sorted keys, so only the library's own order dependence can show"},
 		MinNontrivial: 300,
 		Run: func(c *core.Ctx) {
-			n := int64(c.Pick(2400, 40000))
-			R := c.Pick(30, 200)
+			n := int64(c.Pick(2400, 12000))
+			R := c.Pick(30, 100)
 			exe, _ := os.Executable()
 			type pending struct {
 				i      int64
